@@ -795,7 +795,8 @@ http_hdr_val_remove(uint8_t *http_hdr, uint8_t *hdr_lcase, size_t hdr_size,
 		val = mem_find_ptr(val, hdr_lcase, hdr_size, val_name, val_name_size);
 		if (NULL == val)
 			break;
-		if (':' == (*((uint8_t*)(val + val_name_size))) &&
+		if ((val + val_name_size) < hdr_lcase_end &&
+		    ':' == (*((uint8_t*)(val + val_name_size))) &&
 		    (val == hdr_lcase || ((val > (hdr_lcase + 2)) &&
 		    0 == memcmp(CRLF, (val - 2), 2)))) {
 			ret ++;
